@@ -20,7 +20,7 @@ def C05():
     from units import gen
     parts = [ProofPart(uf, 'UF(eqlog-runtime)', {'which': 0}, native=uf_native(0)),
              ProofPart(uf, 'UF(eqlog)', {'which': 1}, native=uf_native(1)),
-             ProofPart(gen, 'GEN')]
+             ProofPart(gen, 'GEN', native=gen_native())]
     return {
         'level': 'proof', 'parts': parts,
         'samples': uf.SAMPLES,
@@ -83,11 +83,23 @@ def C08():
     }
 
 
+def gen_native():
+    from kit import gen_native as GN
+    seed = os.environ.get('VERIF_SEED', '0') or '0'
+    return Native('gen', None, builder=lambda: GN.build()[0], quick_args=['sweep', 'all', 'quick', seed], thorough_args=['sweep', 'all', 'thorough', seed], timeout=3000,
+                  rule='for every probe theory: the emitted module is compiled with a generated harness (executable form of the generated invariant, reading the private index '
+                       'fields from inside the module) and driven through its public API with all sequences of L operations (new_/define_/insert_/equate_/close over 3 elements '
+                       'per type) followed by close, plus seeded random longer sequences; checked after every call: invariant, are_equal_ == the equivalence generated by the equate_ '
+                       'calls (before the first close), root_ idempotent and in class, inserted tuples visible once while no equate_ happened since the last close, define_ returns the '
+                       'existing value or a fresh element; after every close: iterators duplicate-free and canonical, one representative per class, point queries == iterators and '
+                       'invariant under equal arguments, functions single-valued, closing again changes nothing; every sequence is distinct and non-trivial (ends in close)')
+
+
 def C04():
     from units import gen
     return {
-        'level': 'proof', 'parts': [ProofPart(gen, 'GEN')], 'samples': gen.SAMPLES,
-        'assumptions': gen.ASSUMPTIONS,
+        'level': 'proof', 'parts': [ProofPart(gen, 'GEN', native=gen_native())], 'samples': gen.SAMPLES, 'always_native': True,
+        'assumptions': gen.ASSUMPTIONS + ['the statements of C04 about the state AFTER close() (iterators, canonical elements, agreement of query paths) are covered by the bounded native sweep only'],
     }
 
 
@@ -162,7 +174,7 @@ def C18():
 
 PROPERTIES = {'C04': C04, 'C05': C05, 'C14': C14, 'C08': C08, 'C16': C16, 'C18': C18, 'C11': C11}
 
-NATIVES = {'uf_0': lambda: uf_native(0), 'uf_1': lambda: uf_native(1), 'rt_wb': lambda: rt_native('wb'), 'rt_pt': lambda: rt_native('pt'), 'rt_ts': lambda: rt_native('ts'), 'sn': sn_native, 'sd': sd_native}
+NATIVES = {'uf_0': lambda: uf_native(0), 'uf_1': lambda: uf_native(1), 'rt_wb': lambda: rt_native('wb'), 'rt_pt': lambda: rt_native('pt'), 'rt_ts': lambda: rt_native('ts'), 'sn': sn_native, 'sd': sd_native, 'gen': gen_native}
 
 
 def replay(pid, path):
